@@ -81,12 +81,17 @@ Open Scope R_scope.
 Definition sumw (l : list (R * R)) : R := fold_right (fun vw s => snd vw + s) 0 l.
 Definition sumvw (l : list (R * R)) : R := fold_right (fun vw s => fst vw * snd vw + s) 0 l.
 
+Lemma fold_cell_cons {T} (OP : ops T) mwm (x : T * T) l s :
+  fold_cell OP mwm (x :: l) s = fold_cell OP mwm l (step OP mwm (fst x) s (snd x)).
+Proof. reflexivity. Qed.
+
 Lemma fold_avg l W A : fold_cell RO false l (W, A) = (W + sumw l, A + sumvw l).
 Proof.
   revert W A. induction l as [|[v w] l IH]; intros W A.
   - cbn. f_equal; lra.
-  - unfold fold_cell in *. cbn [fold_left fst snd]. unfold step, step_avg at 1. cbn [fst snd add mul RO].
-    rewrite IH. cbn [sumw sumvw fold_right fst snd]. f_equal; lra.
+  - rewrite fold_cell_cons. cbn [fst snd].
+    change (step RO false v (W, A) w) with (W + w, A + v * w).
+    rewrite IH. unfold sumw, sumvw. cbn [fold_right fst snd]. f_equal; lra.
 Qed.
 
 Lemma sums_bounded l lo hi :
@@ -95,35 +100,35 @@ Lemma sums_bounded l lo hi :
 Proof.
   induction l as [|[v w] l IH]; intros H.
   - cbn. lra.
-  - cbn [sumw sumvw fold_right fst snd].
-    destruct (H v w (or_introl eq_refl)) as [Hw Hv].
+  - destruct (H v w (or_introl eq_refl)) as [Hw Hv].
     destruct IH as [I1 I2]; [intros; apply H; right; assumption|].
+    unfold sumw, sumvw in *. cbn [fold_right fst snd].
     split; [lra|]. nra.
 Qed.
 
-Lemma sumw_pos l : l <> [] -> (forall v w, In (v, w) l -> 0 < w) -> 0 < sumw l.
+Lemma sumw_nonneg l : (forall v w, In (v, w) l -> 0 < w) -> 0 <= sumw l.
 Proof.
-  destruct l as [|[v w] l]; [congruence|]. intros _ H.
-  assert (0 <= sumw l).
-  { clear v w H0. assert (H' : forall v w, In (v, w) l -> 0 < w) by (intros; eapply H; right; eauto).
-    clear H. induction l as [|[v w] l IH]; cbn; [lra|].
-    pose proof (H' v w (or_introl eq_refl)). assert (0 <= sumw l) by (apply IH; intros; eapply H'; right; eauto).
-    unfold sumw in *. lra. }
-  cbn [sumw fold_right snd]. pose proof (H v w (or_introl eq_refl)). unfold sumw in *. lra.
+  induction l as [|[v w] l IH]; intros H; [cbn; lra|].
+  pose proof (H v w (or_introl eq_refl)).
+  assert (0 <= sumw l) by (apply IH; intros; eapply H; right; eauto).
+  unfold sumw in *. cbn [fold_right snd]. lra.
 Qed.
 
 Lemma sumw_ge l v w : (forall v w, In (v, w) l -> 0 < w) -> In (v, w) l -> w <= sumw l.
 Proof.
   induction l as [|[v' w'] l IH]; intros H Hin; [contradiction|].
-  cbn [sumw fold_right snd].
   assert (Hl : forall v w, In (v, w) l -> 0 < w) by (intros; eapply H; right; eauto).
-  assert (0 <= sumw l).
-  { clear IH Hin H. induction l as [|[a b] l IH]; cbn; [lra|].
-    pose proof (Hl a b (or_introl eq_refl)).
-    assert (0 <= sumw l) by (apply IH; intros; eapply Hl; right; eauto). unfold sumw in *. lra. }
+  pose proof (sumw_nonneg l Hl). pose proof (H v' w' (or_introl eq_refl)).
   destruct Hin as [E|Hin].
-  - inversion E; subst. unfold sumw in *. lra.
-  - pose proof (IH Hl Hin). pose proof (H v' w' (or_introl eq_refl)). unfold sumw in *. lra.
+  - inversion E; subst. unfold sumw in *. cbn [fold_right snd]. lra.
+  - pose proof (IH Hl Hin). unfold sumw in *. cbn [fold_right snd]. lra.
+Qed.
+
+Lemma sumw_pos l : l <> [] -> (forall v w, In (v, w) l -> 0 < w) -> 0 < sumw l.
+Proof.
+  destruct l as [|[v w] l]; [congruence|]. intros _ H.
+  pose proof (H v w (or_introl eq_refl)).
+  pose proof (sumw_ge ((v, w) :: l) v w H (or_introl eq_refl)). lra.
 Qed.
 
 (* write_grid_image over the reals (no NaN): threshold, then the stored value / the quotient *)
@@ -197,12 +202,13 @@ Lemma fold_max_inv l s :
 Proof.
   revert s. induction l as [|[v w] l IH]; intros s.
   - left. split; [reflexivity | intros ? ? []].
-  - unfold fold_cell in *. cbn [fold_left fst snd]. unfold step, step_max at 1 3 5. cbn [ltb RO].
+  - rewrite fold_cell_cons. cbn [fst snd].
+    change (step RO true v s w) with (if Rltb (fst s) w then (w, v) else s).
     destruct (Rltb (fst s) w) eqn:E.
     + apply Rltb_true in E. right.
       destruct (IH (w, v)) as [[E1 H1]|[H1 [H2 H3]]].
       * rewrite E1. cbn [fst snd]. split; [assumption|]. split; [left; reflexivity|].
-        intros v' w' [Eq|Hin]; [inversion Eq; lra | eapply H1; eauto].
+        intros v' w' [Eq|Hin]; [inversion Eq; subst; cbn [fst]; lra | eapply H1; eauto].
       * cbn [fst] in H1. split; [lra|]. split; [right; assumption|].
         intros v' w' [Eq|Hin]; [inversion Eq; subst; lra | eapply H3; eauto].
     + apply Rltb_false in E.
